@@ -5,6 +5,7 @@
 
 #include <algorithm>
 #include <csetjmp>
+#include <malloc.h>
 #include <cstdio>
 #include <cstdlib>
 #include <cstring>
@@ -194,6 +195,7 @@ struct Sim {
   // misc
   int default_threads = 1;
   bool atomic_level = false;
+  int stack_fill = 0;
   uint64_t ticks = 0;
   double clock = 1.6e9;
   bool clock_on = false;
@@ -461,6 +463,10 @@ void run_region(int n) {
   for (int k = 0; k < n; ++k) {
     Fiber &f = G.fibers[k];
     f.stack = get_stack();
+#ifndef DETSIM_ASAN
+    if (G.stack_fill)
+      memset(f.stack + STACK_SIZE - (1u << 20), G.stack_fill, 1u << 20);
+#endif
     f.done = false;
     getcontext(&f.ctx);
     f.ctx.uc_stack.ss_sp = f.stack;
@@ -628,6 +634,19 @@ void parallel(int n, const std::function< void(int) > &fn) {
   G.gomp_fn = nullptr;
   G.region_fn = fn;
   run_region(n);
+}
+
+static void __attribute__((noinline)) scrub_stack(int byte, size_t n) {
+  volatile char *p = (volatile char *)__builtin_alloca(n);
+  for (size_t k = 0; k < n; ++k)
+    p[k] = (char)byte;
+}
+void scrub_memory(int byte) {
+#if !defined(__SANITIZE_ADDRESS__)
+  scrub_stack(byte, 3u << 20);
+#endif
+  mallopt(M_PERTURB, byte);
+  G.stack_fill = byte;
 }
 
 void clock_set(double t) { G.clock = t; }
